@@ -131,10 +131,146 @@ class LiftChunkToChunk(Case):
         return obs_loc(r)[:3]
 
 
+class LiftNestedToChunk(Case):
+    """a location expressed relative to a FEATURE that itself sits on chunk A (so its immediate parent is not the
+    chunk), lifted onto chunk B: the lift must go back through the chromosome - the result is the part of the
+    location's chromosome image inside chunk B, in B's coordinates, with the composed strand."""
+    props = ("C04", "C07")
+    name = "AbstractInterval.liftover_location_to_seq_chunk_parent[feature-relative location on chunk A -> chunk B]"
+    func = AI + ".liftover_location_to_seq_chunk_parent"
+    module = "gene.interval"
+    call = "AbstractInterval.liftover_location_to_seq_chunk_parent(inner, chunk_b)"
+    ensures = {
+        "chromosome-image-restricted-to-B-in-B-coordinates": lambda i, r: If(
+            Max(i.cs_, i.bs) < Min(i.ce_, i.be),
+            _single_at(r, Max(i.cs_, i.bs) - i.bs, Min(i.ce_, i.be) - i.bs),
+            class_name(r) == "_EmptyLocation"),
+        "strand-composed": lambda i, r: class_name(r) == "_EmptyLocation" or (
+            Iff(enum_name_is(r.strand, "PLUS"), i.same_strand)),
+    }
+
+    def inputs(self, S):
+        from .gene_common import strand_of
+        a, as_, ae = chunk_parent(S, "a")
+        b, bs, be = chunk_parent(S, "b")
+        fs, fe = S.int("f_start"), S.int("f_end")
+        x, y = S.int("x"), S.int("y")
+        fstrand, istrand = strand_of(S, "f_strand"), strand_of(S, "i_strand")
+        # the feature lies inside chunk A (chromosome coordinates), the inner location inside the feature
+        S.assume(And(bs < be, as_ <= fs, fs < fe, fe <= ae, 0 <= x, x < y, y <= fe - fs))
+        chrom = S.new(PARENT, id="chr1", sequence_type="chromosome")
+        feat_on_chrom = S.new(SINGLE, fs, fe, fstrand, chrom)
+        lift = S.fn(AI + ".liftover_location_to_seq_chunk_parent")
+        feat_on_a = lift(feat_on_chrom, a) if S.mode == "native" else S.e.call(lift, [feat_on_chrom, a], {})
+        feat_parent = S.new(PARENT, id="feat", sequence_type="spliced_feature", parent=feat_on_a.parent)
+        inner = S.new(SINGLE, x, y, istrand, feat_parent)
+        plus = enum_name_is(fstrand, "PLUS")
+        cs_ = (fs + x) if plus else (fe - y)
+        ce_ = (fs + y) if plus else (fe - x)
+        same = enum_name_is(fstrand, "PLUS") == enum_name_is(istrand, "PLUS")
+        return NS(inner=inner, chunk_b=b, bs=bs, be=be, cs_=cs_, ce_=ce_, same_strand=same)
+
+    def samples(self, rng):
+        d = sample_chunk(rng, "a", lo=0, hi=4)
+        d["a_end"] = d["a_start"] + rng.randint(4, 12)
+        d["a_seq"] = "".join(rng.choice("ACGT") for _ in range(d["a_end"] - d["a_start"]))
+        d.update(sample_chunk(rng, "b"))
+        if d["b_end"] == d["b_start"]:
+            d["b_end"] += 1
+            d["b_seq"] = "A"
+        fs = rng.randint(d["a_start"], d["a_end"] - 1)
+        fe = rng.randint(fs + 1, d["a_end"])
+        x = rng.randint(0, fe - fs - 1)
+        d.update(f_start=fs, f_end=fe, x=x, y=rng.randint(x + 1, fe - fs), f_strand=rng.choice(["PLUS", "MINUS"]),
+                 i_strand=rng.choice(["PLUS", "MINUS"]))
+        return d
+
+    def observe(self, r):
+        from .c02_single import obs_loc
+        return obs_loc(r)[:3]
+
+
+class ChildLocationOfParent(Case):
+    """Class invariant the whole lift-over rests on: the Parent attached to a location records THAT location as its
+    child location (Parent.lift_child_location_to_parent lifts parent.location, not the object one holds).  Proved for
+    locations built on a Parent that already carries another location (constructor re-parenting) and for the results
+    of the operations that rebuild a location on the old parent."""
+    props = ("C04", "C01")
+    func = "location.location_impl.CompoundInterval.__init__"
+    module = "location.location_impl"
+
+    def __init__(self, n, via):
+        self.n, self.via = n, via
+        kind = "SingleInterval" if n == 1 else f"CompoundInterval[{n} blocks]"
+        self.name = f"parent.location is the location itself: {kind} via {via}"
+        if n == 1:
+            self.func = "location.location_impl.SingleInterval.__init__"
+        self.call = {"constructor on a parent that already holds a location": "loc",
+                     "reverse_strand": "loc.reverse_strand()",
+                     "reset_strand": "loc.reset_strand(other_strand)",
+                     "shift_position": "loc.shift_position(shift)"}[via]
+        self.ensures = {
+            "parent-records-this-location": lambda i, r: And(
+                r.parent is not None, r.parent.location is not None,
+                _same_blocks(r.parent.location, r),
+                enum_eq(r.parent.location.strand, r.strand) if hasattr(r.strand, "idx")
+                else r.parent.location.strand is r.strand),
+            "parent-identity-kept": lambda i, r: r.parent.id == "chr1",
+            "expected-coordinates": lambda i, r: _same_blocks_list(
+                r, [(s + (i.shift if via == "shift_position" else 0), e + (i.shift if via == "shift_position" else 0))
+                    for s, e in zip(i.starts, i.ends)]),
+        }
+
+    def inputs(self, S):
+        from .gene_common import block_lists, strand_of
+        starts, ends = block_lists(S, "loc", self.n, allow_adjacent=False)
+        strand, sib_strand, other = strand_of(S, "strand"), strand_of(S, "sib_strand"), strand_of(S, "other_strand")
+        a, b = S.int("sib_start"), S.int("sib_end")
+        shift = S.int("shift")
+        S.assume(And(0 <= a, a <= b, 0 <= shift))
+        sib = S.new(SINGLE, a, b, sib_strand, S.new(PARENT, id="chr1", sequence_type="chromosome"))
+        if self.n == 1:
+            loc = S.new(SINGLE, starts[0], ends[0], strand, sib.parent)
+        else:
+            loc = S.new(COMPOUND, starts, ends, strand, sib.parent)
+        return NS(loc=loc, starts=starts, ends=ends, other_strand=other, shift=shift)
+
+    def samples(self, rng):
+        from .gene_common import sample_blocks
+        d = sample_blocks(rng, "loc", self.n, gap=(1, 2, 3))
+        a = rng.randint(0, 9)
+        d.update(strand=rng.choice(["PLUS", "MINUS"]), sib_strand=rng.choice(["PLUS", "MINUS"]),
+                 other_strand=rng.choice(["PLUS", "MINUS"]), sib_start=a, sib_end=a + rng.randint(0, 5),
+                 shift=rng.randint(0, 4))
+        return d
+
+    def observe(self, r):
+        from .c02_single import obs_loc
+        return [obs_loc(r)[:3], obs_loc(r.parent.location)[:3]]
+
+
+def _same_blocks(a, b):
+    from .c02_single import blocks_of
+    ba, bb = blocks_of(a), blocks_of(b)
+    if len(ba) != len(bb):
+        return False
+    return And(*[And(x[0] == y[0], x[1] == y[1]) for x, y in zip(ba, bb)])
+
+
+def _same_blocks_list(a, blocks):
+    from .c02_single import blocks_of
+    ba = blocks_of(a)
+    if len(ba) != len(blocks):
+        return False
+    return And(*[And(x[0] == y[0], x[1] == y[1]) for x, y in zip(ba, blocks)])
+
+
 def _single_at(r, start, end):
     if class_name(r) != "SingleInterval":
         return False
     return And(r.start == start, r.end == end)
 
 
-CASES = [LiftToChunk(), LiftRoundTrip(), LiftChunkToChunk()]
+CASES = [LiftToChunk(), LiftRoundTrip(), LiftChunkToChunk(), LiftNestedToChunk()]
+CASES += [ChildLocationOfParent(n, via) for n in (1, 2) for via in (
+    "constructor on a parent that already holds a location", "reverse_strand", "reset_strand", "shift_position")]
